@@ -29,15 +29,15 @@ type Config struct {
 	// evaluated at all. A harness hosts assertions of several properties; a violated assertion ends its path
 	// (execution continues only under the asserted condition), so without this an earlier assertion of
 	// another property would mask the later assertions of the property being checked.
-	FocusProperty string
+	FocusProperty   string
 	SolverBin       string
 	SolverTimeoutMs int
 	Workers         int
 	MaxPaths        int
-	MaxWallS        int // wall-clock cap per harness run: exploration stops and the run is inconclusive (never a pass)
-	LockMonitor     bool // Eraser-style lock discipline monitor
-	FullSchemaLib   bool // initialise and interpret the schema library's packages too (concrete bodies only)
-	GlobalMonitor   bool // report stores to package-level state
+	MaxWallS        int    // wall-clock cap per harness run: exploration stops and the run is inconclusive (never a pass)
+	LockMonitor     bool   // Eraser-style lock discipline monitor
+	FullSchemaLib   bool   // initialise and interpret the schema library's packages too (concrete bodies only)
+	GlobalMonitor   bool   // report stores to package-level state
 	LogQueries      string // file to append standalone solver queries (with the answer z3 gave) to
 	LogEvery        int    // log every n-th query
 	Verbose         bool
@@ -298,9 +298,9 @@ type Exec struct {
 	locks         map[*Val]int // mutex cell -> 0 free, 1 write-held, n>1: n-1 readers (encoded as -(n))
 	mapRangeSites map[string]bool
 
-	doms      map[string]*byteDom
-	entangled map[string]bool
-	uniMemo   map[*Term]*uniInfo
+	doms       map[string]*byteDom
+	entangled  map[string]bool
+	uniMemo    map[*Term]*uniInfo
 	DomDecided int
 
 	queryCount   int
@@ -315,17 +315,17 @@ type Exec struct {
 	lastResult           Val
 
 	// per-path results
-	violations []Violation
-	incon      []string
-	asserts    map[string]*AssertStat
-	reach      map[string]int
-	funcs      map[string]string
-	sampleDone bool
-	samples    []map[string]string
+	violations   []Violation
+	incon        []string
+	asserts      map[string]*AssertStat
+	reach        map[string]int
+	funcs        map[string]string
+	sampleDone   bool
+	samples      []map[string]string
 	sampleModels []SampleModel
-	extraNotes map[string]int
-	ptrIDs     map[interface{}]int // fake addresses for %p
-	pools      map[*Val][]Val      // sync.Pool contents (LIFO)
+	extraNotes   map[string]int
+	ptrIDs       map[interface{}]int // fake addresses for %p
+	pools        map[*Val][]Val      // sync.Pool contents (LIFO)
 }
 
 func (ex *Exec) noteFunc(fn *ssa.Function, kind string) {
